@@ -364,9 +364,137 @@ static void run_crash(void)
 	xp_state(hash_mix((uint64_t)ff * 100000 + (uint64_t)shortk * 10 + (uint64_t)crash, (uint64_t)by_admin + 2 * (uint64_t)nusers + 64 * (uint64_t)salt_seed));
 }
 
+
+/* ---- section 2: histories of two changes in one daemon run ---------------------------------------------------------
+ * The first change meets a fault (ftruncate fails; write fails at once; write accepts k bytes and the next write fails;
+ * write accepts k bytes and the rest later), the second one - to a third password - meets none.  What the first change
+ * left behind (file offset, truncated file, half-written text, in-memory set) must not damage the second: at the end the
+ * file must load in a fresh daemon and hold exactly the set that the two answers describe. */
+enum hfault { HF_NONE = 0, HF_FTRUNCATE_FAILS, HF_WRITE_ENOSPC, HF_SHORT_THEN_ENOSPC, HF_SHORT_THEN_REST, NHF };
+static const char *const HFN[] = {"no fault", "ftruncate fails", "write fails with ENOSPC", "write accepts k bytes, the next write fails with ENOSPC", "write accepts k bytes, the rest with the next write"};
+
+static void run_history(void)
+{
+	int nusers = (int)xp_param("users", 1) > NACCTS ? NACCTS : (int)xp_param("users", 1);
+	int salt_seed = (int)xp_param("salt", 1);
+	int hf = xp_choose(NHF, XP_SCENARIO, "fault-of-the-first-change");
+	int shortk = 0;
+	if (hf == HF_SHORT_THEN_ENOSPC || hf == HF_SHORT_THEN_REST) {
+		shortk = 1 + xp_choose((int)xp_param("maxshort", 700), XP_SCENARIO, "bytes-accepted");
+	}
+	int second_by = nusers >= 4 ? xp_choose(2, XP_SCENARIO, "second-change-by") : 0; /* 0: john himself, 1: the admin */
+	char *file = make_file(nusers, salt_seed);
+	if (shortk > 0 && (size_t)shortk >= strlen(file) + 40) {
+		xp_end_run();
+	}
+	static char THIRDPW[40];
+	snprintf(THIRDPW, sizeof(THIRDPW), "%s", ACCTS[0].pw);
+	THIRDPW[strlen(THIRDPW) - 1] = '%';
+	snprintf(what, sizeof(what), "john changes his password, %s%s; then %s changes it again without any fault (file with %d user(s), salt seed %d)", HFN[hf], "", second_by ? "the admin" : "john", nusers, salt_seed);
+	if (shortk) {
+		snprintf(what + strlen(what), sizeof(what) - strlen(what), ", k = %d", shortk);
+	}
+	int twin = xp_twin_begin();
+	if (twin) {
+		struct sim_opts o = {0};
+		o.passwd_file = file;
+		sim_seed_random((uint64_t)salt_seed);
+		jx_boot(&o);
+		int P = jx_open(CL_RAW);
+		jx_sendf(P, "{\"id\":\"a1\",\"method\":\"authenticate\",\"params\":{\"user\":\"john\",\"password\":\"%s\"}}", ACCTS[0].pw);
+		jx_settle();
+		switch (hf) {
+		case HF_FTRUNCATE_FAILS:
+			sim_fail_next("ftruncate", EIO, -1);
+			break;
+		case HF_WRITE_ENOSPC:
+			sim_fs_write_policy(-1, ENOSPC);
+			break;
+		case HF_SHORT_THEN_ENOSPC:
+			sim_fs_write_policy(shortk, ENOSPC);
+			break;
+		case HF_SHORT_THEN_REST:
+			sim_fs_write_policy(shortk, 0);
+			break;
+		default:
+			break;
+		}
+		jx_sendf(P, "{\"id\":\"pw1\",\"method\":\"passwd\",\"params\":{\"user\":\"john\",\"password\":\"%s\"}}", NEWPW);
+		jx_settle();
+		struct cl_msg *r1 = jx_find_response_str(P, "pw1", 0);
+		int acked1 = r1 == NULL ? 2 : jx_is_success(r1) ? 1 : 0;
+		sim_fs_write_policy(-1, 0);
+		int Q = P;
+		if (second_by) {
+			Q = jx_open(CL_RAW);
+			jx_sendf(Q, "{\"id\":\"a2\",\"method\":\"authenticate\",\"params\":{\"user\":\"adm\",\"password\":\"%s\"}}", ACCTS[acct_index("adm")].pw);
+			jx_settle();
+		}
+		jx_sendf(Q, "{\"id\":\"pw2\",\"method\":\"passwd\",\"params\":{\"user\":\"john\",\"password\":\"%s\"}}", THIRDPW);
+		jx_settle();
+		struct cl_msg *r2 = jx_find_response_str(Q, "pw2", 0);
+		int acked2 = r2 == NULL ? 2 : jx_is_success(r2) ? 1 : 0;
+		int run_state = (can_login("john", ACCTS[0].pw) ? 1 : 0) | (can_login("john", NEWPW) ? 2 : 0) | (can_login("john", THIRDPW) ? 4 : 0);
+		struct bytebuf t = {0};
+		bb_printf(&t, "%d %d %d\n", acked1, acked2, run_state);
+		const struct bytebuf *img = sim_fs_content();
+		bb_append(&t, img->p, img->len);
+		xp_twin_end(&t, NULL);
+	}
+	struct bytebuf empty = {0}, got = {0};
+	xp_twin_end(&empty, &got);
+	bb_append(&got, "", 1);
+	int acked1 = 0, acked2 = 0, run_state = 0;
+	sscanf((char *)got.p, "%d %d %d", &acked1, &acked2, &run_state);
+	char *image = strchr((char *)got.p, '\n');
+	if (image == NULL) {
+		xp_harness_error("twin transcript malformed");
+	}
+	image++;
+	if (acked1 == 2 || acked2 == 2) {
+		fail20("passwd-not-answered:history", "a passwd request got no response (first: %d, second: %d)", acked1, acked2);
+	}
+	int want = acked2 == 1 ? 4 : acked1 == 1 ? 2 : 1; /* which of old / new / third password must work */
+	char key[200];
+	char fclass[60];
+	snprintf(fclass, sizeof(fclass), "%s", hf == HF_NONE ? "no-fault" : hf == HF_FTRUNCATE_FAILS ? "ftruncate-fails" : hf == HF_WRITE_ENOSPC ? "write-error" : hf == HF_SHORT_THEN_ENOSPC ? "short-write-then-error" : "short-write");
+	if (run_state != want) {
+		snprintf(key, sizeof(key), "history:running-daemon-disagrees-with-its-answers:%s", fclass);
+		fail20(key, "answers: first change %s, second change %s; in the running daemon old/new/third password work = %d/%d/%d", acked1 ? "acknowledged" : "refused", acked2 ? "acknowledged" : "refused", run_state & 1, (run_state >> 1) & 1, (run_state >> 2) & 1);
+	}
+	if (acked2 != 1) {
+		snprintf(key, sizeof(key), "history:fault-free-change-refused:%s", fclass);
+		fail20(key, "the second change met no fault and was allowed, but was answered with an error");
+	}
+	struct sim_opts o = {0};
+	o.passwd_file = image;
+	if (!sim_boot(&o)) {
+		snprintf(key, sizeof(key), "history:file-not-loadable-after-later-successful-change:%s", fclass);
+		fail20(key, "after the acknowledged second change a fresh daemon cannot load the file (%zu bytes, first byte 0x%02x)", strlen(image) ? strlen(image) : (size_t)(got.len - (size_t)(image - (char *)got.p)), (unsigned)(uint8_t)image[0]);
+	}
+	int file_state = (can_login("john", ACCTS[0].pw) ? 1 : 0) | (can_login("john", NEWPW) ? 2 : 0) | (can_login("john", THIRDPW) ? 4 : 0);
+	if (file_state != want) {
+		snprintf(key, sizeof(key), "history:file-disagrees-with-answers:%s", fclass);
+		fail20(key, "answers: first change %s, second change acknowledged; with the file old/new/third password work = %d/%d/%d", acked1 ? "acknowledged" : "refused", file_state & 1, (file_state >> 1) & 1, (file_state >> 2) & 1);
+	}
+	for (int i = 1; i < nusers; i++) {
+		if (!can_login(ACCTS[i].name, ACCTS[i].pw)) {
+			snprintf(key, sizeof(key), "history:file-lost-other-account:%s", fclass);
+			fail20(key, "the file loads, but account '%s' no longer authenticates", ACCTS[i].name);
+		}
+	}
+	xp_count(acked1 ? "first_change_acknowledged" : "first_change_refused", 1);
+	xp_nontrivial();
+	xp_transition();
+	xp_outcome(hash_mix((uint64_t)acked1, (uint64_t)file_state));
+	xp_state(hash_mix((uint64_t)hf * 100000 + (uint64_t)shortk * 10 + (uint64_t)second_by, 7 + 2 * (uint64_t)nusers + 64 * (uint64_t)salt_seed));
+}
+
 static void run(void)
 {
-	if (xp_param("section", 0) == 1) {
+	if (xp_param("section", 0) == 2) {
+		run_history();
+	} else if (xp_param("section", 0) == 1) {
 		run_crash();
 	} else {
 		run_matrix();
@@ -377,6 +505,6 @@ const struct driver drv_c20 = {
     .name = "c20",
     .property = "C20",
     .run = run,
-    .rule = "section 0: credential file with 7 accounts (plain, admin, read-only, read-only admin, names that are prefixes / extensions of each other) x 8 caller identities (unauthenticated, plain, admin, read-only, plain then failed authentication, prefix-named, read-only admin, re-authenticated) x 9 targets (each account, unknown, empty) x 2 transports x {single change, a second change by the admin afterwards}; reference: allowed iff caller authenticated, target exists and is not read-only, caller is the target or an admin; allowed => success, the new password (which differs from the old one only in its last character) authenticates and the old does not, every other account unaffected, file rewritten and complete; refused => error, file byte-identical, nothing changed; section 1: one allowed change (by the user / by the admin) x fault outcome {none, ftruncate fails, write fails ENOSPC / EIO, first write accepts only j bytes for EVERY j < file size} x EVERY crash point (file image before the change and after each mutating call, recorded by the simulated file system in a twin execution): a fresh daemon booted on the image must load it and authenticate john with exactly one of old / new password and every other account unchanged; acknowledged => new set on disk and effective in the running daemon; error answer => old set on disk and in memory; params: users (file size), salt (seed of the deterministic random stub); non-trivial = all applicable runs",
+    .rule = "section 0: credential file with 7 accounts (plain, admin, read-only, read-only admin, names that are prefixes / extensions of each other) x 8 caller identities (unauthenticated, plain, admin, read-only, plain then failed authentication, prefix-named, read-only admin, re-authenticated) x 9 targets (each account, unknown, empty) x 2 transports x {single change, a second change by the admin afterwards}; reference: allowed iff caller authenticated, target exists and is not read-only, caller is the target or an admin; allowed => success, the new password (which differs from the old one only in its last character) authenticates and the old does not, every other account unaffected, file rewritten and complete; refused => error, file byte-identical, nothing changed; section 1: one allowed change (by the user / by the admin) x fault outcome {none, ftruncate fails, write fails ENOSPC / EIO, first write accepts only j bytes for EVERY j < file size} x EVERY crash point (file image before the change and after each mutating call, recorded by the simulated file system in a twin execution): a fresh daemon booted on the image must load it and authenticate john with exactly one of old / new password and every other account unchanged; acknowledged => new set on disk and effective in the running daemon; error answer => old set on disk and in memory; section 2: histories of two changes in one daemon run - the first meets {no fault, ftruncate fails, write fails ENOSPC, write accepts k bytes then ENOSPC, write accepts k bytes then the rest} for EVERY k, the second (a third password, by john or by the admin) meets none: both are answered, the fault-free one is acknowledged, the running daemon and a fresh daemon booted on the final file authenticate john with exactly the password the two answers describe, other accounts unchanged; params: users (file size), salt (seed of the deterministic random stub); non-trivial = all applicable runs",
     .assumptions = "a crash is modelled as losing everything after a mutating call of the credential file (ftruncate / write); the simulated file system applies each call atomically|write() returning 0 for a non-empty buffer is not modelled",
 };
